@@ -13,7 +13,7 @@ from hypothesis import strategies as st
 from conda_content_trust import authentication as A, common as C
 
 from props import C02, C03, C11
-from vlib import gen_deleg, gen_envelope as GE, gen_json as G, gen_metadata as GM, gen_repodata as GR, keys, ref_grammar as g, \
+from vlib import configrun, gen_deleg, gen_envelope as GE, gen_json as G, gen_metadata as GM, gen_repodata as GR, keys, ref_grammar as g, \
     ref_openpgp, ref_verify as RV
 from vlib.ref_canon import canon, jeq
 from vlib.runner import REPO, ROOT, Inconclusive, Unit, Violation
@@ -95,6 +95,13 @@ def library_verdict(tf, uf):
 # ---- verify-metadata -----------------------------------------------------------------------------------------------
 
 MALFORMED = ["truncated", "not-object", "no-signed", "no-type", "type-not-string", "empty", "binary", "missing", "type-list"]
+
+
+@st.composite
+def _verify_cases_cfg(draw):
+    c = draw(_verify_cases())
+    c["config"] = draw(st.one_of(st.none(), configrun.configs))
+    return c
 
 
 @st.composite
@@ -200,6 +207,15 @@ def _write_pair(d, case):
     return tf, uf
 
 
+def _cfg_env(cfg):
+    """process configuration of the CLI child taken from a drawn configuration"""
+    env = {}
+    for k in ("PYTHONHASHSEED", "LC_ALL", "TZ", "PYTHONUTF8", "PYTHONWARNINGS", "PYTHONOPTIMIZE", "PYTHONCOERCECLOCALE"):
+        if (cfg or {}).get(k) is not None:
+            env[k] = cfg[k]
+    return env
+
+
 def check_verify(case):
     d = tempfile.mkdtemp(prefix="c17-")
     try:
@@ -207,7 +223,7 @@ def check_verify(case):
         want = library_verdict(tf, uf)
         results = []
         for name, cmd in entry_points(d):
-            rc, out, err = run_cli(cmd, ["verify-metadata", tf, uf], d)
+            rc, out, err = run_cli(cmd, ["verify-metadata", tf, uf], d, env_extra=_cfg_env(case.get("config")))
             ok_text = "verification successful" in out
             results.append((name, rc, ok_text))
             if (rc == 0) != (want == "accept"):
@@ -222,7 +238,8 @@ def check_verify(case):
             raise Violation("entry points disagree: %r" % results, bucket="entry points disagree")
     finally:
         shutil.rmtree(d, ignore_errors=True)
-    return {"nontrivial": True, "labels": ["kind=" + case["kind"], "flaw=" + str(case["flaw"]), "library=" + ("accept" if want == "accept" else "reject")],
+    return {"nontrivial": True, "labels": ["kind=" + case["kind"], "flaw=" + str(case["flaw"]), "library=" + ("accept" if want == "accept" else "reject"),
+                                           "configured" if case.get("config") else "default-config"],
             "count": {"processes": 3}}
 
 
@@ -372,7 +389,7 @@ def check_fixture(case):
 
 
 UNITS = [
-    Unit("verify", check_verify, shrink=False, strategy=_verify_cases, quick=112, thorough=2400, shards_quick=16,
+    Unit("verify", check_verify, shrink=False, strategy=_verify_cases_cfg, quick=112, thorough=2400, shards_quick=16,
          essential=["library=accept", "library=reject", "kind=malformed", "kind=mutated", "kind=root", "kind=delegation"],
          doc="verify-metadata: exit status / stdout of the three entry points == library verdict"),
     Unit("fixtures", check_fixture, enumerate=enum_fixtures, exhaustive=True, shards_quick=8,
